@@ -71,7 +71,7 @@ FnName  == "w"
 NoTask == [st |-> "none", pc |-> "new", must |-> FALSE, wait |-> "none", fst |-> "none", dres |-> "none",
            etok |-> "", cbs |-> <<>>, again |-> FALSE, fin |-> "no", pend |-> "none", ptok |-> "", gout |-> "ret",
            r |-> -1, j |-> -1, i |-> 0, acq |-> FALSE,
-           hkind |-> "", re |-> FALSE, gch |-> <<>>, gn |-> 0, gcreq |-> FALSE, phase |-> 0]
+           hkind |-> "", re |-> FALSE, gch |-> <<>>, gn |-> 0, gcreq |-> FALSE, phase |-> 0, hcanc |-> FALSE]
 
 (* ---- initial state ------------------------------------------------------------------------------- *)
 Init0 ==
@@ -286,6 +286,11 @@ OpHStart(s, op, where) ==
                      RunH(HT(h)))
   IN OpEv(s1, op, where, "ok", [h |-> h, kind |-> op.kind, re |-> op.re])
 
+OpHCancel(s, op, where) ==      \* the user cancels the task that awaits flush() / gather_and_close() / until_closed()
+  LET h == HT(op.h)
+      can == op.h < s.nh /\ s.tk[h].st = "pend"
+  IN OpEv(IF can THEN TaskCancel([s EXCEPT !.tk[h].hcanc = TRUE], h) ELSE s, op, where, IF can THEN "ok" ELSE "skip", [h |-> op.h])
+
 OpRelease(s, op, where) ==
   LET t == op.id
       can == s.tk[t].st = "pend" /\ s.tk[t].wait = "gate" /\ s.tk[t].fst = "pend"
@@ -308,6 +313,7 @@ DoOp(s, op, where) ==
     [] op.o = "set_size" -> OpSetSize(s, op, where)
     [] op.o = "get_ids" -> OpGetIds(s, op, where)
     [] op.o = "hstart" -> OpHStart(s, op, where)
+    [] op.o = "hcancel" -> OpHCancel(s, op, where)
     [] op.o = "release" -> OpRelease(s, op, where)
     [] op.o = "release_cb" -> OpReleaseCb(s, op, where)
 
@@ -490,7 +496,8 @@ RunSpawner(s0, sp) ==
          ELSE StartTask([s EXCEPT !.tk[sp].acq = TRUE], sp, TRUE)
 
 (* ---- awaited pool methods, run as harness tasks: flush / gather_and_close / until_closed ----------------------------- *)
-HDone(s, h, res, tok) ==
+HDone(s, h, res0, tok) ==
+  LET res == IF res0 = "CancelledError" /\ s.tk[h].hcanc THEN "cancelled" ELSE res0 IN
   TaskDone(Emit(s, [e |-> "hdone", h |-> HofHT(h), kind |-> s.tk[h].hkind, res |-> res, tok |-> tok]), h, "ok", "")
 
 (* asyncio.gather (CPython 3.12): done-callbacks are registered on the children that are still pending; the
@@ -562,7 +569,7 @@ RunHarness(s0, h) ==
       hh == HofHT(h)
   IN
   IF tk0.pc = "new" /\ throwC THEN TaskDone(s, h, "canc", "")
-  ELSE IF throwC THEN HDone(s, h, "cancelled", "")
+  ELSE IF throwC /\ ~(kind = "flush" /\ tk0.pc = "f1") THEN HDone(s, h, "CancelledError", "")
   ELSE
   CASE kind = "until" ->
          IF tk0.pc = "new"
@@ -577,7 +584,7 @@ RunHarness(s0, h) ==
               IN IF s2.tk[h].fst = "pend" THEN s2 ELSE RunHarness(s2, h)
          ELSE IF tk0.pc = "f1"
          THEN (* with suppress(CancelledError): a cancelled child ends the wait; other exceptions propagate *)
-              IF raised /\ tk0.etok # "CancelledError"
+              IF raised /\ tk0.etok # "CancelledError" /\ ~throwC
               THEN HDone(s, h, ExcName(tk0.etok), ExcTok(tk0.etok))
               ELSE LET s1 == [s EXCEPT !.metaCanc = <<>>]
                        snap == s1.ended \o s1.cancelled
@@ -597,7 +604,8 @@ RunHarness(s0, h) ==
               IN IF s3.tk[h].fst = "pend" THEN s3 ELSE RunHarness(s3, h)
          ELSE IF tk0.pc = "g1"
          THEN LET exc == FirstMetaExc(s, tk0.gch, 1) IN
-              IF ~tk0.re /\ exc # "" THEN HDone(s, h, ExcName(exc), ExcTok(exc))
+              IF raised THEN HDone(s, h, ExcName(tk0.etok), ExcTok(tk0.etok))      \* (only a requested cancellation gets here)
+              ELSE IF ~tk0.re /\ exc # "" THEN HDone(s, h, ExcName(exc), ExcTok(exc))
               ELSE LET s1 == [s EXCEPT !.metaCanc = <<>>, !.metaRun = <<>>]
                        snap == s1.ended \o s1.cancelled \o s1.running
                        s2 == GatherStart(s1, h, snap, tk0.re, "g2")
